@@ -11,6 +11,7 @@ import (
 	"errors"
 	"io"
 	"net/http"
+	kjson "sigs.k8s.io/json"
 	"strconv"
 	"time"
 
@@ -33,6 +34,8 @@ const (
 	verifBodyUnknown = `{"status":{"n":"fresh"},"bogus":1}`
 	verifBodyDup     = `{"status":{},"status":{"n":"fresh"}}`
 	verifBodyInvalid = `{`
+	// a cached answer that carries an unknown field
+	verifBodyCachedUnknown = `{"status":{"n":"cached"},"bogus":1}`
 )
 
 var (
@@ -166,7 +169,7 @@ func VerifC19_StatusGate() {
 			cachedEtag = rt.String("cached-etag")
 			rt.Assume(cachedEtag != "") // the only writer never stores an empty ETag
 			if rt.Bool("cached-has-unknown-field") {
-				cachedBody = `{"status":{"n":"cached"},"bogus":1}`
+				cachedBody = verifBodyCachedUnknown
 				cachedStrictErrs = true
 			}
 		}
@@ -460,9 +463,9 @@ type verifCallState struct {
 // or the resource changed meanwhile).
 func VerifC19_Interleave() {
 	n := 2
-	states := 2
+	states := 2 // "the state whose tag was sent" / "another state"; tag e2 is spare
 	if rt.Tier() == 1 {
-		n, states = 3, 3
+		n = 3
 	}
 	w := &webhookExecutorEtag{etagCache: cache.New[eTagKey, *eTagEntry](0, 0)}
 	if rt.Bool("cache-warm") {
@@ -498,14 +501,24 @@ func VerifC19_Interleave() {
 			c.resp, c.body, c.sentTag, c.sent = verifAnswer(c.req, r)
 			rt.Assert(w.isStatusSupported(c.req, c.resp), "interleave/answer-refused")
 		case 2:
+			pre, preOK := w.etagCache.Get(verifKey("p"))
 			got, err := w.adjustResponse(c.req, c.wreq, c.body, c.resp)
-			rt.Assert(err == nil, "interleave/error")
-			if err == nil {
-				if c.resp.StatusCode == 304 {
-					served304++
-					rt.Assert(string(got) == verifBodyOfTag(c.sentTag), "interleave/304-body-not-the-one-cached-with-sent-etag")
+			if c.resp.StatusCode == 304 {
+				served304++
+				if err != nil {
+					// refusing a 304 is acceptable only when the entry that was
+					// cached with the sent tag is gone
+					rt.Cover("304-refused")
+					if preOK {
+						rt.Assert(pre.Etag != c.sentTag, "interleave/304-refused-although-entry-with-sent-etag-present")
+					}
 				} else {
-					served200++
+					rt.Assert(string(got) == verifBodyOfTag(c.sentTag), "interleave/304-body-not-the-one-cached-with-sent-etag")
+				}
+			} else {
+				served200++
+				rt.Assert(err == nil, "interleave/200-error")
+				if err == nil {
 					rt.Assert(string(got) == string(c.body), "interleave/200-body-not-the-fresh-one")
 				}
 			}
@@ -550,18 +563,29 @@ func VerifC19_NestedCall() {
 	var respA verifResp
 	errA := exec.Call(&verifReq{Parent: verifParent("p")}, &respA)
 
-	rt.Assert(errA == nil, "nested/outer-call-failed")
+	// nothing interferes with the inner call
 	rt.Assert(errB == nil, "nested/inner-call-failed")
 	if errB == nil {
 		rt.Assert(verifStatusText(inner, respB.n()), "nested/inner-call-got-other-body")
 	}
-	if errA == nil {
-		if outer.code == 304 {
-			rt.Cover("outer-304")
-			rt.Assert(`{"status":{"n":"`+respA.n()+`"}}` == verifBodyOfTag(outer.sentTag), "nested/304-body-not-the-one-cached-with-sent-etag")
+	textA := `{"status":{"n":"` + respA.n() + `"}}`
+	if outer.code == 304 {
+		rt.Cover("outer-304")
+		if errA != nil {
+			// refusing is acceptable only when the entry cached with the sent tag
+			// is gone (the outer call's adjustment is the last cache access)
+			rt.Cover("outer-304-refused")
+			if e, ok := w.etagCache.Get(verifKey("p")); ok {
+				rt.Assert(e.Etag != outer.sentTag, "nested/304-refused-although-entry-with-sent-etag-present")
+			}
 		} else {
-			rt.Cover("outer-200")
-			rt.Assert(`{"status":{"n":"`+respA.n()+`"}}` == verifVersion(rA), "nested/200-body-not-the-fresh-one")
+			rt.Assert(textA == verifBodyOfTag(outer.sentTag), "nested/304-body-not-the-one-cached-with-sent-etag")
+		}
+	} else {
+		rt.Cover("outer-200")
+		rt.Assert(errA == nil, "nested/outer-200-failed")
+		if errA == nil {
+			rt.Assert(textA == verifVersion(rA), "nested/200-body-not-the-fresh-one")
 		}
 	}
 }
@@ -589,4 +613,41 @@ func (c *verifNestedClient) Do(req *http.Request) (*http.Response, error) {
 	c.code, c.sentTag = resp.StatusCode, tag
 	resp.Body = &verifBody{data: body}
 	return resp, nil
+}
+
+// ---------------------------------------------------------------- decode model
+
+// VerifC19_DecodeModel pins the agreed meaning of every response text used
+// above and, being a single concrete path that is always replayed natively,
+// cross-checks the executor's model of sigs.k8s.io/json.UnmarshalStrict
+// against the real parser on exactly these texts (observations must agree).
+func VerifC19_DecodeModel() {
+	type c struct {
+		text   string
+		bad    bool
+		strict int
+		n      string
+	}
+	for _, k := range []c{
+		{verifBodyFresh, false, 0, "fresh"},
+		{verifBodyCached, false, 0, "cached"},
+		{verifBodyUnknown, false, 1, "fresh"},
+		{verifBodyCachedUnknown, false, 1, "cached"},
+		{verifBodyDup, false, 1, "fresh"},
+		{verifBodyInvalid, true, 0, "<no status>"},
+		{"", true, 0, "<no status>"},
+		{verifVersion(0), false, 0, "v0"},
+		{verifVersion(1), false, 0, "v1"},
+		{verifVersion(2), false, 0, "v2"},
+	} {
+		var r verifResp
+		strictErrs, err := kjson.UnmarshalStrict([]byte(k.text), &r)
+		rt.Observe("err", err != nil)
+		rt.Observe("strict", len(strictErrs))
+		rt.Observe("n", r.n())
+		rt.Assert((err != nil) == k.bad, "decode-model/error-outcome")
+		rt.Assert(len(strictErrs) == k.strict, "decode-model/strict-error-count")
+		rt.Assert(r.n() == k.n, "decode-model/decoded-value")
+	}
+	rt.Cover("decode-model-checked")
 }
